@@ -544,6 +544,17 @@ class IKRun:
                     raise Violation("K-local", "%s (%s path) started %.4f rad from an in-limit, non-singular solution and "
                                     "raised %s: %s" % (op, path, ok_pre[0], type(exc).__name__, exc),
                                     dict(sig, exception=type(exc).__name__))
+            # A raise reports nothing -- but the arm must not be left *claiming* something either: if its reported tool pose
+            # was the pose of its stored joints before the call, it still is after a call that gave up by raising (a raise
+            # between "remember the goal as the reported pose" and "commit the joints" leaves it claiming an unreached pose,
+            # and every later check=False failure then inherits an incoherent arm it cannot be blamed for).
+            if info.get("pre_coherent"):
+                dev = self.coherent()
+                if dev > 1e-7:
+                    raise Violation("K-fail-coherent", "%s (%s path) raised %s and left the arm incoherent: reported tool pose differs "
+                                    "from FK(stored joints) by %.3e" % (op, path, type(exc).__name__, dev),
+                                    dict(sig, exception=type(exc).__name__, check=st.get("check", True)))
+                P["raise_left_arm_coherent"] += 1
             return
         try:
             theta, success = ret
